@@ -80,6 +80,36 @@ def observe(res, nnodes):
     return names, declared, refs
 
 
+def reference_matrix(ctx, vh):
+    """object-valued properties x referenced object: a reference is written into the .ui only when the referenced object is of a class the property accepts
+    (a widget for buddy, an action for defaultAction / actions); anything else is diagnosed"""
+    objs = {"edit": "widget", "act": "action", "lay": "layout", "menu": "widget", "inner": "widget", "sp": "spacer"}
+    places = [("buddy", "QLabel { id: lbl; buddy: %s }", {"widget"}), ("actions", "QToolBar { id: bar; actions: [%s] }", {"action"}), ("actions2", "QToolBar { id: bar; actions: [act, %s] }", {"action"})]
+    docs, meta = [], []
+    for pname, tmpl, ok_kinds in places:
+        for o, kind in objs.items():
+            doc = ("import qmluic.QtWidgets\nQWidget {\n  QLineEdit { id: edit }\n  QAction { id: act }\n  QMenu { id: menu }\n"
+                   "  QVBoxLayout { id: lay; QLabel { id: inner } QSpacerItem { id: sp } }\n  " + tmpl % o + "\n}\n")
+            docs.append(doc)
+            meta.append((pname, o, kind, kind in ok_kinds))
+    res = qml.run_docs(vh, docs, mode="generate")
+    for (pname, o, kind, compatible), doc, r in zip(meta, docs, res):
+        ctx.count(("reference-matrix", pname, o), True)
+        if not isinstance(r, dict) or "diags" not in r:
+            ctx.violation("pipeline gives no result on an object reference", {"qml": doc, "impl_output": str(r)[:500]})
+            continue
+        accepted = r.get("ui") is not None and not any(d["kind"] == "error" for d in r["diags"])
+        if accepted and not compatible:
+            ctx.violation("%s: a reference to the %s `%s` is accepted and written into the form -- not an object of a class the property takes" % (pname, kind, o),
+                          {"qml": doc, "impl_output": r.get("ui"), "theorem_or_correspondence": "S: references denote declared objects of a compatible class"})
+        elif compatible and not accepted:
+            ctx.violation("%s: a reference to the %s `%s` is rejected: %s" % (pname, kind, o, [d["msg"] for d in r["diags"]][:1]), {"qml": doc, "impl_output": r["diags"]})
+        elif accepted:
+            if ('<cstring>%s</cstring>' % o not in r["ui"]) and ('<addaction name="%s"/>' % o not in r["ui"]):
+                ctx.violation("%s: the reference to `%s` is accepted but not in the form" % (pname, o), {"qml": doc, "impl_output": r["ui"]})
+    ctx.coverage["reference_matrix"] = len(meta)
+
+
 def run(ctx):
     ctx.proof_leg(TARGETS, PINS, k_targets=K_TARGETS)
     vh = ctx.need_harness()
@@ -164,6 +194,7 @@ def run(ctx):
         idx.append(i)
     ctx.sample({"qml": docs[0], "names": observe(impl[0], 0)[0] if isinstance(impl[0], dict) and impl[0].get("ui") else None})
     ctx.coverage["compared_with_model"] = len(terms)
+    reference_matrix(ctx, vh)
     ctx.coverage["rule"] = ("object trees (depth <= 3, fan-out <= 5) over Qt and synthetic classes whose names end in digits / start with K or Q, ids drawn from a pool of "
                             "names shaped like generated ones, 15% with deliberately duplicated ids; non-trivial = at least two anonymous objects; distinct by document")
     if not ctx.model_ok:
